@@ -17,6 +17,7 @@ package main
 import (
 	"encoding/json"
 	"fmt"
+	"io"
 	"io/ioutil"
 	"os"
 	"path/filepath"
@@ -70,6 +71,7 @@ type Spec struct {
 	Mode     string   `json:"mode"`
 	Targets  []string `json:"targets"`
 	Patterns []string `json:"patterns"` // runtoregex: the regular expressions (targets = the names they resolve to)
+	DebugLog bool     `json:"debuglog"` // log level DEBUG (into wf.log)
 }
 
 func die(f string, a ...interface{}) {
@@ -137,7 +139,11 @@ func main() {
 	if lerr != nil {
 		die("%v", lerr)
 	}
-	sp.InitLog(ioutil.Discard, ioutil.Discard, ioutil.Discard, logf, logf, os.Stderr)
+	var debugW io.Writer = ioutil.Discard
+	if spec.DebugLog {
+		debugW = logf
+	}
+	sp.InitLog(ioutil.Discard, debugW, ioutil.Discard, logf, logf, os.Stderr)
 	wf := sp.NewWorkflowCustomLogFile(spec.Name, spec.Max, "wf2.log")
 
 	type portOwner interface {
